@@ -1,6 +1,7 @@
 package main
 
 import (
+	"os"
 	"fmt"
 	"go/ast"
 	"go/constant"
@@ -181,6 +182,15 @@ func (x *Exec) staticCall(i *ssa.Call, callee *ssa.Function) Val {
 		x.warn("call to %s has no contract: results havocked", key)
 		x.havocArgs(com.Args, vals)
 		return x.freshVal("nc_"+callee.Name(), resT)
+	}
+	if pkgPath == "math/big" && x.th.Mode() == "int" {
+		if v, ok := x.bigCall(i, callee, vals); ok {
+			return v
+		}
+		x.warn("math/big.%s is not modelled here: result and arguments havocked", callee.Name())
+		if os.Getenv("GOVC_DEBUG") != "" {
+			fmt.Fprintf(os.Stderr, "bigmodel: %s not modelled (%T...)\n", callee.Name(), vals[0])
+		}
 	}
 	// external
 	x.havocArgs(com.Args, vals)
